@@ -39,6 +39,7 @@ func runC07(c *Ctx) {
 		ruleReadFull(c, p, "C07.readfull")
 		ruleEnsureExact(c, p, "C07.ensure")
 		ruleFieldBeforeUse(c, p, "C07.field-before-use")
+		ruleAutoStateful(c, p, "C07.auto-stateful")
 		ruleReaderSource(c, p, "C07.source")
 		ruleReadSizes(c, p, "C07.sizes")
 	}
@@ -114,8 +115,17 @@ func ruleColumnCount(c *Ctx, p *core.Program, rule string) {
 			} else if ph, ok := bo.Y.(*ssa.Phi); ok && ph.Block() == b {
 				ind, bound = ph, bo.X
 			} else if bx, ok := bo.X.(*ssa.BinOp); ok && bx.Op == token.ADD { // rotated range loop: i+1 < n
-				if ph, ok := bx.X.(*ssa.Phi); ok && ph.Block() == b {
-					ind, bound = ph, bo.Y
+				if ph, ok := bx.X.(*ssa.Phi); ok {
+					// the phi sits in this block, or (for range n: test at the bottom) in the block the test jumps back to
+					back := ph.Block() == b
+					for _, sc := range b.Succs {
+						if sc == ph.Block() {
+							back = true
+						}
+					}
+					if back {
+						ind, bound = ph, bo.Y
+					}
 				}
 			}
 			if ind == nil {
@@ -309,4 +319,66 @@ func ruleFieldBeforeUse(c *Ctx, p *core.Program, rule string) {
 	}
 	c.R.Count("field-then-method pairs in decoders["+cfg+"]", n)
 	c.R.Floor(rule, cfg, n, 1)
+}
+
+// ruleAutoStateful (C07 / C01): what ColAuto instantiates keeps its state prefix inside reflected wrappers.
+func ruleAutoStateful(c *Ctx, p *core.Program, rule string) {
+	c.R.Rule(rule, "ColAuto builds Array(T), Nullable(T) and LowCardinality(T) by calling the inferred element's Array / Nullable / LowCardinality helper through reflection. For every column type that ColAuto.Infer instantiates, either the type has no state prefix of its own (no DecodeState method that reads from the Reader), or each of those helpers puts the column itself into the wrapper - a helper that forwards to a field's helper (c.Str.Array()) wraps the inner column, the wrapper never consumes the 8-byte state prefix the encoder wrote, and every truncation behind it decodes cleanly")
+	cfg := p.Cfg.Name
+	inf := p.Method(core.PkgProto, "ColAuto", "Infer")
+	if !c.must(p, "ColAuto.Infer", inf != nil) {
+		return
+	}
+	seen := map[*types.Named]bool{}
+	n := 0
+	for _, b := range inf.Blocks {
+		for _, in := range b.Instrs {
+			al, ok := in.(*ssa.Alloc)
+			if !ok || !al.Heap {
+				continue
+			}
+			nm := core.NamedOf(al.Type())
+			if nm == nil || seen[nm] || nm.Obj().Pkg() == nil || nm.Obj().Pkg().Path() != core.PkgProto || types.NewMethodSet(types.NewPointer(nm)).Lookup(nm.Obj().Pkg(), "DecodeColumn") == nil {
+				continue
+			}
+			seen[nm] = true
+			n++
+			key := "ColAuto/" + nm.Obj().Name()
+			ds := methodOf(p, nm, "DecodeState")
+			stateful := false
+			if ds != nil && ds.Blocks != nil && core.RecvNamed2(ds) != nil && core.RecvNamed2(ds).Obj() == nm.Obj() {
+				stateful = core.ReachesCallee(ds, func(f *types.Func) bool {
+					sig, ok := f.Type().(*types.Signature)
+					return ok && sig.Recv() != nil && core.IsNamed(sig.Recv().Type(), core.PkgProto, "Reader")
+				}, 2)
+			}
+			if !stateful {
+				c.R.Ok(rule, key, cfg, p.Pos(al.Pos()), "no state prefix of its own")
+				continue
+			}
+			var forwards []string
+			for _, hn := range []string{"Array", "Nullable", "LowCardinality"} {
+				h := methodOf(p, nm, hn)
+				if h == nil || h.Blocks == nil || len(h.Params) == 0 {
+					continue
+				}
+				for _, call := range core.Calls(h) {
+					args := call.Common().Args
+					if len(args) == 0 || call.Common().IsInvoke() {
+						continue
+					}
+					if fa, ok := args[0].(*ssa.FieldAddr); ok && fa.X == ssa.Value(h.Params[0]) {
+						forwards = append(forwards, hn+"() -> "+fieldNameOnly(fa.X.Type(), fa.Field)+"."+core.CalleeFunc(call).Name()+"()")
+					}
+				}
+			}
+			if len(forwards) > 0 {
+				c.R.Bad(rule, key, cfg, p.Pos(al.Pos()), sprintf("%s has a state prefix and is instantiated by ColAuto, but %s: the reflected wrapper holds the inner column and skips the state prefix on decode", nm.Obj().Name(), strings.Join(forwards, ", ")))
+			} else {
+				c.R.Ok(rule, key, cfg, p.Pos(al.Pos()), "stateful; wrapper helpers wrap the column itself")
+			}
+		}
+	}
+	c.R.Count("column types instantiated by ColAuto.Infer", n)
+	c.R.Floor(rule, cfg, n, 8)
 }
